@@ -146,38 +146,55 @@ where
                 let wmax = wdomain.max();
                 // The constraint is: u * v = w  <=>  u = w / v  <=>  v = w / u
                 //
-                // Given domains for u and v, we can then deduce that the domain of w must be
-                // in range [umin - vmax .. umax + vmin]. The constraining domain is built and
-                // intersected with the current domain of w in .process_domain()-call.
-                //
-                // Same application of constraining domain is done for the other two variables.
-                //   w = u * v  =>  [umin * vmin .. umax * vmax]
-                //   u = w / v  =>  [wmin / vmax .. wmax / vmin]
-                //   v = w / u  =>  [wmin / umax .. wmax / umin]
+                // The operand domains may contain negative numbers and zero, so the bounds of
+                // a product or quotient are the smallest and largest of the four combinations
+                // of the operand bounds:
+                //   w = u * v  =>  [min(umin*vmin, umin*vmax, umax*vmin, umax*vmax) .. max(..)]
+                //   u = w / v  =>  [min(wmin/vmin, wmin/vmax, wmax/vmin, wmax/vmax) .. max(..)]
+                //   v = w / u  =>  likewise
+                // A factor can be narrowed through division only when the bounds of the other
+                // factor exclude zero. Truncating division never cuts off an exact quotient.
                 //
                 // The constraint is not dropped until all variables converge into numbers.
-                Ok(state
-                    .process_domain(
-                        &wwalk,
-                        Rc::new(FiniteDomain::from(
-                            umin.saturating_mul(vmin)..=umax.saturating_mul(vmax),
-                        )),
-                    )?
-                    .process_domain(
+                let bounds = |candidates: [isize; 4]| -> Rc<FiniteDomain> {
+                    let lo = *candidates.iter().min().unwrap();
+                    let hi = *candidates.iter().max().unwrap();
+                    Rc::new(FiniteDomain::from(lo..=hi))
+                };
+                let div = |a: isize, b: isize| a.checked_div(b).unwrap_or(isize::MAX);
+
+                let mut state = state.process_domain(
+                    &wwalk,
+                    bounds([
+                        umin.saturating_mul(vmin),
+                        umin.saturating_mul(vmax),
+                        umax.saturating_mul(vmin),
+                        umax.saturating_mul(vmax),
+                    ]),
+                )?;
+                if vmin > 0 || vmax < 0 {
+                    state = state.process_domain(
                         &uwalk,
-                        Rc::new(FiniteDomain::from(
-                            wmin.checked_div(vmax).unwrap_or(umin)
-                                ..=wmax.checked_div(vmin).unwrap_or(umax),
-                        )),
-                    )?
-                    .process_domain(
+                        bounds([
+                            div(wmin, vmin),
+                            div(wmin, vmax),
+                            div(wmax, vmin),
+                            div(wmax, vmax),
+                        ]),
+                    )?;
+                }
+                if umin > 0 || umax < 0 {
+                    state = state.process_domain(
                         &vwalk,
-                        Rc::new(FiniteDomain::from(
-                            wmin.checked_div(umax).unwrap_or(vmin)
-                                ..=wmax.checked_div(umin).unwrap_or(vmax),
-                        )),
-                    )?
-                    .with_constraint(self))
+                        bounds([
+                            div(wmin, umin),
+                            div(wmin, umax),
+                            div(wmax, umin),
+                            div(wmax, umax),
+                        ]),
+                    )?;
+                }
+                Ok(state.with_constraint(self))
             }
             // If all operators do not yet have domains, then keep the constraint until it can
             // be used to constrain some domains.
